@@ -32,7 +32,8 @@ var defects = []string{"import-cycle", "import-self", "include-cycle", "typedef-
 	"feature-cycle-second", "dangling-if-feature-second", "dangling-include-foreign", "dangling-include-foreign-nested",
 	"typedef-cycle-local-case", "typedef-cycle-local-augment", "typedef-cycle-local-uses-augment", "typedef-cycle-local-list",
 	"dangling-uses-augment-absolute", "illegal-config-in-remote-grouping", "illegal-default-in-remote-grouping",
-	"dangling-unique-last", "dangling-unique-inner", "dangling-unique-skips-choice", "dangling-unique-via-list", "dangling-unique-non-leaf"}
+	"dangling-unique-last", "dangling-unique-inner", "dangling-unique-skips-choice", "dangling-unique-via-list", "dangling-unique-non-leaf",
+	"odd-extension-prefix", "odd-extension-name", "illegal-grouping-uses-deprecated-grouping"}
 
 func str(s string) *sg.TypeSpec { return &sg.TypeSpec{Name: s} }
 
@@ -204,6 +205,37 @@ func inject(mods []*sg.Mod, d string, pick func(n int) int) {
 		host.Nodes[0].Kids = append(host.Nodes[0].Kids, &sg.Node{Kind: "leaf", Name: "dang-leaf", Type: str("string"), IfFeatures: []string{"no-such-feature"}})
 	case "dangling-prefix":
 		host.Nodes[0].Kids = append(host.Nodes[0].Kids, &sg.Node{Kind: "leaf", Name: "dang-leaf", Type: str("nopfx:sometype")})
+	case "illegal-grouping-uses-deprecated-grouping":
+		// a current grouping that uses a deprecated one of its module; another grouping, possibly in another file of the
+		// module, uses the first from a deprecated container.  The verdict must not depend on which is expanded first.
+		m.Groupings = append(m.Groupings, &sg.Grouping{Name: "cyc-gdep", Status: "deprecated", Kids: []*sg.Node{{Kind: "leaf", Name: "cyc-a", Type: str("string")}}},
+			&sg.Grouping{Name: "cyc-g1", Kids: []*sg.Node{{Kind: "uses", Name: ref("cyc-gdep")}}})
+		second.Groupings = append(second.Groupings, &sg.Grouping{Name: "cyc-g2", Kids: []*sg.Node{{Kind: "container", Name: "cyc-c2", Status: "deprecated", Kids: []*sg.Node{{Kind: "uses", Name: ref("cyc-g1")}}}}})
+	case "odd-extension-prefix", "odd-extension-name":
+		// the use of an extension (prefix:name argument;) whose prefix no import of the file binds, or whose name the
+		// module the prefix stands for does not define: on a container, on a leaf, in a grouping, on a type
+		st := "nopfx:cyc-ext \"v\";"
+		if d == "odd-extension-name" {
+			st = m.Prefix + ":cyc-no-such-ext \"v\";"
+			if m.BelongsTo != "" {
+				st = "own:cyc-no-such-ext \"v\";"
+			}
+		}
+		lf := &sg.Node{Kind: "leaf", Name: "cyc-leaf", Type: str("string")}
+		switch pick(4) {
+		case 0:
+			lf.Raw = []string{st}
+			m.Nodes = append(m.Nodes, &sg.Node{Kind: "container", Name: "cyc-xc", Kids: []*sg.Node{lf}})
+		case 1:
+			m.Nodes = append(m.Nodes, &sg.Node{Kind: "container", Name: "cyc-xc", Raw: []string{st}, Kids: []*sg.Node{lf}})
+		case 2:
+			lf.Raw = []string{st}
+			m.Groupings = append(m.Groupings, &sg.Grouping{Name: "cyc-gx", Kids: []*sg.Node{lf}})
+			host.Nodes[0].Kids = append(host.Nodes[0].Kids, &sg.Node{Kind: "uses", Name: ref("cyc-gx")})
+		default:
+			lf.Raw = []string{st}
+			m.Groupings = append(m.Groupings, &sg.Grouping{Name: "cyc-gx", Kids: []*sg.Node{lf}})
+		}
 	case "dangling-unique-last", "dangling-unique-inner", "dangling-unique-skips-choice", "dangling-unique-via-list", "dangling-unique-non-leaf":
 		// a unique statement whose path does not end at a leaf of the entry: the last or an inner component names
 		// nothing, the path leaves out the choice and case it goes through, crosses a nested list, or ends at a container
@@ -423,7 +455,9 @@ func checkCase(c Case) fw.Outcome {
 	}
 	// cycles are errors under every feature configuration; a dangling reference (an addition of this check, the property
 	// names cycles only) sits on a node that a disabled feature may remove before anything resolves it
-	mustReject := c.Defect != "" && (c.Feat == "" || strings.Contains(c.Defect, "cycle") || strings.Contains(c.Defect, "self") || strings.HasPrefix(c.Defect, "illegal-"))
+	// (the "odd-" kinds are ill-formed references the property does not list - uses of extensions - : whether they are
+	// refused depends on where they stand; the compile has to end, the same way every time)
+	mustReject := c.Defect != "" && !strings.HasPrefix(c.Defect, "odd-") && (c.Feat == "" || strings.Contains(c.Defect, "cycle") || strings.Contains(c.Defect, "self") || strings.HasPrefix(c.Defect, "illegal-"))
 	if mustReject && firstOK {
 		out.Violation = fmt.Sprintf("a module set with an injected %s compiles without error\nmodules:\n%s", c.Defect, out.Key)
 	}
